@@ -6,7 +6,7 @@
 From Coq Require Import List String Ascii Bool Arith ZArith.
 From Helm Require Import Common.Assoc Common.Strs Values.Tree Values.Coalesce
   Misc.Panics Misc.PanicsStorage Misc.PanicsDeps Misc.PanicsIndex Misc.PanicsSort Misc.PanicsSchema
-  Misc.PanicsStrvalsLex Misc.PanicsStrvals Misc.PanicsRec Misc.PanicsGate Gen.C20Tables.
+  Misc.PanicsStrvalsLex Misc.PanicsStrvals Misc.PanicsRec Misc.PanicsGate Misc.PanicsCoalesce Gen.C20Tables.
 Import ListNotations.
 Local Open Scope string_scope.
 
@@ -383,9 +383,12 @@ Definition schema_run (direct : bool) (c : schart sch) (cc : Coalesce.chart) (v 
     | Ok true => COk | Ok false => CErr | Err => CErr | Panic _ => CPanic
     end
   else
-    match coalesce_values_root cc v with
-    | None => CErr
-    | Some cv =>
+    (* CoalesceValues in the panic monad (Misc/PanicsCoalesce.v; proved equal to the shared
+       model Values/Coalesce.v): a type assertion of coalesce.go that fired would show here *)
+    match coalesce_values_p cc v with
+    | Err => CErr
+    | Panic _ => CPanic
+    | Ok cv =>
         match validate_schema sch sch_validate true c cv with
         | Ok true => COk | Ok false => CErr | Err => CErr | Panic _ => CPanic
         end
